@@ -103,17 +103,18 @@ package ristretto
 //@   uses cidxInRange
 //@   requires 2 <= numCounters && numCounters <= 1<<62
 //@   loop 1 invariant 0 <= i && i <= 4 && sketch != nil && sketch.mask == uint64(next2Power(numCounters)-1)
-//@   loop 1 invariant forall k int :: 0 <= k && k < i ==> sketch.mask/2 < uint64(len(sketch.rows[k])) && gcAllocated(sketch.rows[k]) && len(sketch.rows[k]) > 0
+//@   loop 1 invariant forall k int :: 0 <= k && k < i ==> sketch.mask/2 < uint64(len(sketch.rows[k])) && gcAllocated(sketch.rows[k]) && gcFresh(sketch.rows[k]) && len(sketch.rows[k]) > 0
 //@   loop 1 invariant forall k, l int :: 0 <= k && k < l && l < i ==> !gcSameArray(sketch.rows[k], sketch.rows[l])
 //@   loop 1 invariant forall k int, y uint64 :: 0 <= k && k < i && y/2 < uint64(len(sketch.rows[k])) ==> nib(sketch.rows[k], y) == 0
 //@   reveal nib
 //@   ensures [C18] #wf wfSketch(result)
+//@   ensures #fresh forall i int :: 0 <= i && i < 4 ==> gcFresh(result.rows[i])
 //@   ensures [C18] #size result.mask+1 == uint64(next2Power(numCounters))
 //@   ensures [C18] #zero forall y uint64 :: est(result, y) == 0
 
 // ---------------------------------------------------------------- policy.go: tinyLFU (C18)
 
-//@ spec wfTiny(p *tinyLFU) bool = p != nil && wfSketch(p.freq) && z.GcWfBloom(p.door)
+//@ spec wfTiny(p *tinyLFU) bool = p != nil && wfSketch(p.freq) && z.GcWfBloom(p.door) && forall i int :: 0 <= i && i < 4 ==> !gcSameArray(p.freq.rows[i], z.GcMask())
 //@ spec tinyEst(p *tinyLFU, x uint64) int64 = int64(est(p.freq, x)) + ite(z.GcHas(p.door, x), int64(1), int64(0))
 //@ spec min64(a, b int64) int64 = ite(b < a, b, a)
 
